@@ -27,6 +27,7 @@ type c08cfg struct {
 	count   int
 	a       int
 	shuffle string // "identity", "reverse", "choose"
+	instant bool   // responders answer the moment they are asked
 }
 
 // provider universe: X, Y, Z; "+a" = with an address
@@ -62,6 +63,11 @@ func c08Configs(tier string) []vmc.Cfg {
 						}
 						c := c08cfg{lists: lists, local: local, count: count, a: a, shuffle: sh}
 						out = append(out, vmc.Cfg{Name: fmt.Sprintf("a%d/count%d/local%d/%s/lists%v", a, count, local, sh, lists), Data: c})
+						if a == 3 && sh != "choose" {
+							ci := c
+							ci.instant = true
+							out = append(out, vmc.Cfg{Name: fmt.Sprintf("a%d/count%d/local%d/%s/lists%v/instant", a, count, local, sh, lists), Data: ci})
+						}
 					}
 				}
 			}
@@ -117,6 +123,7 @@ func c08Run(x *vmc.X, cfg vmc.Cfg) {
 	}
 	defer l.close()
 	l.seed(ids)
+	l.net.Instant = c.instant
 	switch c.shuffle {
 	case "reverse":
 		l.d.shuffle = func(n int, swap func(i, j int)) {
